@@ -32,6 +32,10 @@ type c09Prog struct {
 type c09Case struct {
 	Map   pmCase    `json:"map"`
 	Progs []c09Prog `json:"progs"`
+	// Age: the allocator has been in use for a while - that many allocate/free pairs by a
+	// single caller - before the concurrent phase starts (counters inside the allocator or its
+	// lock are near whatever boundary they have)
+	Age int `json:"age,omitempty"`
 }
 
 const c09Patience = 8 * time.Second
@@ -67,6 +71,15 @@ func c09Run(c c09Case) (fail *vlib.Failure, rs c09Stats) {
 	for _, f := range avail {
 		if (f < kf0 || f > kf1) && !early[f] {
 			usable++
+		}
+	}
+	for i := 0; i < c.Age && usable > 0; i++ {
+		f, err := alloc.AllocFrame()
+		if err != nil {
+			return vlib.Failf("allocate/free pair %d of the single-caller warm-up: AllocFrame failed (%s) although %d frames are usable", i, err.Message, usable), rs
+		}
+		if err := alloc.FreeFrame(f); err != nil {
+			return vlib.Failf("allocate/free pair %d of the single-caller warm-up: FreeFrame(%#x) failed: %s", i, uintptr(f), err.Message), rs
 		}
 	}
 	initialReserved := alloc.reservedPages
@@ -377,6 +390,10 @@ func TestVerifC09(t *testing.T) {
 		}
 		c.Map.KStart = 0x100000
 		c.Map.KEnd = 0x100000 + 1
+		if rapid.IntRange(0, 11).Draw(t, "aged") == 0 {
+			// around 2^15 and 2^16 pairs = 2^16 and 2^17 lock acquisitions before the workers start
+			c.Age = rapid.SampledFrom([]int{120, 32000, 32700, 32760, 65400, 65530}).Draw(t, "age")
+		}
 		nw := rapid.IntRange(2, 16).Draw(t, "workers")
 		for i := 0; i < nw; i++ {
 			c.Progs = append(c.Progs, c09Prog{
@@ -400,6 +417,9 @@ func TestVerifC09(t *testing.T) {
 		}
 		if rs.skipped {
 			labels = append(labels, "init-failed(routed to C03)")
+		}
+		if c.Age >= 30000 {
+			labels = append(labels, "allocator-used-tens-of-thousands-of-times-before")
 		}
 		st.Add("calls_completed", rs.allocs+rs.frees+rs.ooms)
 		st.Add("lock_contention_events", rs.contention)
